@@ -392,7 +392,9 @@ class Ctx:
         return os.path.join(d, f"{self.prop}_{tag}_{self.seed}.json")
 
     def violation(self, tag, payload, nofail=False):
-        p = self.replay_path(tag)
+        # one replay file per reported failure: a second failure of the same stream/kind gets a suffix
+        n = sum(1 for q, _ in self.violations if os.path.basename(q).startswith(f"{self.prop}_{tag}_"))
+        p = self.replay_path(tag if n == 0 else f"{tag}_{n + 1}")
         payload = dict(payload, property=self.prop, seed=self.seed, tier=self.tier)
         with open(p, "w") as f:
             json.dump(payload, f, indent=1)
